@@ -364,7 +364,8 @@ func cmdCheck(args []string) int {
 	ev := map[string]any{
 		"property_id": prop, "tier": tier, "seed": seed, "level": "proof",
 		"coverage": map[string]any{
-			"obligations": len(oc.sites), "discharged": discharged,
+			"obligations": len(oc.sites) - len(knownHit), "discharged": discharged,
+			"obligations_including_known_findings": len(oc.sites),
 			"obligation_instances_over_paths": oc.total,
 			"checker_cmd":                     fmt.Sprintf("bin/govc check -prop %s -tier %s (VC generation over the typed AST of %s with -tags verif; z3-new 5.1.0, then z3 4.8.12 and cvc5 raced)", prop, tier, repo),
 			"trusted_base":                    trusted,
@@ -377,7 +378,7 @@ func cmdCheck(args []string) int {
 			"known_finding_obligations":       knownHit,
 			"fixed_entries":                   fixed,
 			"undecided":                       undecided,
-			"failed_obligations":              len(oc.sites) - proved,
+			"failed_obligations":              len(oc.sites) - proved - len(knownHit),
 			"explanation":                     propertyExplanation[prop],
 		},
 		"assumptions": trusted,
